@@ -201,7 +201,7 @@ def check_pattern(c, ex, st_, tier):
     am = [e for e, a in zip(exp, asserted) if a]
     nontriv = rm.has_quant_or_classop(ast) and (True in am) and (False in am)
     st_.note(xv.sha([text, subjects]), nontriv, labels)
-    st_.sample({'pattern': text, 'alphabet': syms, 'subjects': len(subjects), 'members': sum(1 for e in exp if e)})
+    if st_.evaluations % 41 == 7: st_.sample({'pattern': text, 'alphabet': syms, 'subjects': len(subjects), 'members': sum(1 for e in exp if e)})
     st_.extra['verdicts'] = st_.extra.get('verdicts', 0) + len(subjects)
     st_.extra['asserted_members'] = st_.extra.get('asserted_members', 0) + sum(1 for e in am if e)
     st_.extra['asserted_nonmembers'] = st_.extra.get('asserted_nonmembers', 0) + sum(1 for e in am if e is False)
@@ -399,19 +399,20 @@ def check_search(c, ast, lang_schema, ex, st_, subjects, nshort):
                                       'non-schema pattern %r subject %r: %r with opts %r but %r with opts %r' % (text, s, x, baseo, y, o))
     # tokenize / replace / allMatches consistency (pattern must not match the empty string: documented RuntimeException otherwise)
     nullable = lang.accepting(lang.start)
+    topts = sopts + 'H' if rm.has_class_subtraction(ast) else sopts       # finding C11-headchar-empty-class-oob: see above
     try:
         # allMatches() itself never terminates on a pattern that matches the empty string (tokenize/replace guard against it)
-        hA, am = call(ex, 'allmatches', text, sopts, subset) if not nullable else ('C\tOK', [''] * len(subset))
-        hT, tk = call(ex, 'tokenize', text, sopts, subset)
-        hR, rp = call(ex, 'replace', text, sopts, subset, rep=c['repl'])
+        hA, am = call(ex, 'allmatches', text, topts, subset) if not nullable else ('C\tOK', [''] * len(subset))
+        hT, tk = call(ex, 'tokenize', text, topts, subset)
+        hR, rp = call(ex, 'replace', text, topts, subset, rep=c['repl'])
         hP, pm = call(ex, 'regex', text, sopts + 'H', subset, 'rp')
     except Watchdog:
         st_.inconclusive += 1; return
     except xv.ExecutorDied as e:
-        raise PropertyFailure(crash_case(text, sopts, subset, '', None, 'tokenize', c['repl']), 'executor died rc=%s\n%s' % (e.rc, e.stderr[-3000:]))
+        raise PropertyFailure(crash_case(text, topts, subset, '', None, 'tokenize', c['repl']), 'executor died rc=%s\n%s' % (e.rc, e.stderr[-3000:]))
     st_.labels['tokenize-replace' + ('-nullable' if nullable else '')] += 1
     for s, a, t, r, p in zip(subset, am, tk, rp, pm):
-        mk = lambda detail: PropertyFailure({'kind': 'tokrep', 'pattern': text, 'opts': sopts, 'subject': s, 'rep': c['repl'], 'nullable': nullable}, detail)
+        mk = lambda detail: PropertyFailure({'kind': 'tokrep', 'pattern': text, 'opts': topts, 'subject': s, 'rep': c['repl'], 'nullable': nullable}, detail)
         if dotstar and any(ch in s for ch in '\n\r'): continue
         if nullable:
             if not (t.startswith('E\tXMLException\tRuntimeException') and r.startswith('E\tXMLException\tRuntimeException')):
